@@ -132,8 +132,11 @@ def rule_visited(ctx):
     if ai is not None:
         ps = [p for p in method_calls(ai["body"], "push") if render(strip(p["recv"])) == "self.stack"]
         if ps:
-            cs = [fact_str(c).replace(" ", "") for c in (conditions_to(ai["body"], ps[0]) or [])]
-            ctx.check(R, "add_include/visited-files-not-requeued", "!self.black_paths.contains(&path)" in cs, "push under %s" % cs, site(INC, ps[0]))
+            conds_ = conditions_to(ai["body"], ps[0]) or []
+            cs = [fact_str(c).replace(" ", "") for c in conds_]
+            pushed = render(strip(ps[0]["args"][0]))
+            okv = any(c[0] == "if" and not c[2] and sgrep.match(sgrep.pattern("self.black_paths.contains(%s)" % pushed), c[1], {}) for c in conds_)
+            ctx.check(R, "add_include/visited-files-not-requeued", okv, "push under %s" % cs, site(INC, ps[0]))
 
 
 def rule_resolution(ctx):
@@ -142,21 +145,29 @@ def rule_resolution(ctx):
     ai = find_fn(INC, "add_include")
     if ai is None:
         return ctx.missing(R, "add_include")
-    le = let_env(ai["body"])
-    loc = le.get("location")
-    ctx.check(R, "add_include/relative-to-including-file", loc is not None and render(strip(loc)).replace(" ", "").startswith("self.current_location") and "location.push(include.path.clone())" in render(ai["body"]).replace(" ", ""), render(loc) if loc else "?", site(INC, ai))
-    ms = [m for m in walk(ai["body"]) if m["k"] == "Match"]
-    ok = len(ms) == 1 and render(ms[0]["scrut"]).replace(" ", "") == "fs::canonicalize(&location)"
-    ctx.check(R, "add_include/canonicalises-the-joined-path", ok, render(ms[0]["scrut"]) if ms else "no match on fs::canonicalize", site(INC, ai))
+    pva = sgrep.params(ai)
+    inc = pva[0] if pva else "include"
+    # the joined path: `let mut L = self.current_location.clone()..; L.push(<include>.path.clone())`
+    lenv = sgrep.lets(ai["body"])
+    locs = [k for k, v in lenv.items() if render(strip(v)).replace(" ", "").startswith("self.current_location")]
+    okj = len(locs) == 1 and sgrep.has(ai["body"], "%s.push(%s.path)" % (locs[0], inc))
+    ctx.check(R, "add_include/relative-to-including-file", okj, "joined path: %s" % locs, site(INC, ai))
+    L = locs[0] if locs else "location"
+    canon = [c for c in walk(ai["body"]) if c["k"] == "Call" and render(c["func"]).endswith("canonicalize")]
+    ok = len(canon) == 1 and render(strip(canon[0]["args"][0])) == L
+    ctx.check(R, "add_include/canonicalises-the-joined-path", ok, render(canon[0]) if canon else "no fs::canonicalize", site(INC, ai))
     if ok:
-        arms = {render(a["pat"]).replace(" ", ""): a for a in ms[0]["arms"]}
-        e = arms.get("Err(_)")
-        ctx.check(R, "add_include/libraries-only-on-failure", e is not None and render(strip(e["body"])).replace(" ", "") == "self.include_library(include)", render(e["body"])[:80] if e else "no Err arm", site(INC, ai))
         libcalls = list(method_calls(ai["body"], "include_library"))
         ctx.check(R, "add_include/library-search-once", len(libcalls) == 1, "%d calls" % len(libcalls), site(INC, ai))
+        # the libraries are searched exactly when canonicalisation failed
+        oklib = False
+        if len(libcalls) == 1:
+            cl = conditions_to(ai["body"], libcalls[0]) or []
+            oklib = len(cl) == 1 and cl[0][0] == "iflet" and cl[0][3] and render(cl[0][1]).replace(" ", "").startswith("Err(") and any(x is canon[0] for x in walk(cl[0][2])) and render(strip(libcalls[0]["args"][0])) == inc
+        ctx.check(R, "add_include/libraries-only-on-failure", oklib, "include_library under %s" % (facts_str(conditions_to(ai["body"], libcalls[0]) or []) if libcalls else "-"), site(INC, ai))
         # the canonicalisation is unconditional
-        cs = conditions_to(ai["body"], ms[0]) or []
-        ctx.check(R, "add_include/canonicalisation-unconditional", not cs, "resolution only under %s: other includes are queued un-canonicalised or not at all" % facts_str(cs), site(INC, ms[0]))
+        cs = conditions_to(ai["body"], canon[0]) or []
+        ctx.check(R, "add_include/canonicalisation-unconditional", not cs, "resolution only under %s: other includes are queued un-canonicalised or not at all" % facts_str(cs), site(INC, canon[0]))
         pushes = [p for p in method_calls(ai["body"], "push") if render(strip(p["recv"])) == "self.stack"]
         ctx.check(R, "add_include/single-push", len(pushes) == 1, "%d pushes" % len(pushes), site(INC, ai))
     il = find_fn(INC, "include_library")
@@ -260,9 +271,31 @@ def rule_user_inputs(ctx):
     if nw is None:
         return ctx.missing(R, "FileStack::new")
     t = render(nw["body"]).replace(" ", "")
-    i1, i2 = t.find("result.add_files(paths,reports);"), t.find("result.user_inputs=result.stack.iter().cloned().collect::<HashSet<_>>();")
-    ctx.check(R, "FileStack::new/user-inputs-copy-of-initial-stack", 0 <= i1 < i2, "", site(INC, nw))
-    ctx.check(R, "FileStack::new/libraries-before-files", 0 <= t.find("result.add_libraries(libs,reports);") < i1, "", site(INC, nw))
+    from astlib import block_tail
+
+    tl = block_tail(nw["body"])
+    res = render(strip(tl)) if tl is not None else "result"
+    top = nw["body"]["stmts"]
+
+    def idx(pred):
+        for i_, s_ in enumerate(top):
+            if any(pred(n_) for n_ in walk(s_)):
+                return i_
+        return -1
+
+    i_lib = idx(lambda n_: n_["k"] == "MethodCall" and n_["method"] == "add_libraries" and render(strip(n_["recv"])) == res)
+    i_files = idx(lambda n_: n_["k"] == "MethodCall" and n_["method"] == "add_files" and render(strip(n_["recv"])) == res)
+    lenv_n = sgrep.lets(nw["body"])
+    asg = [n_ for n_ in walk(nw["body"]) if n_["k"] == "Assign" and render(n_["l"]).replace(" ", "") == "%s.user_inputs" % res]
+    i_ui = idx(lambda n_: n_["k"] == "Assign" and render(n_["l"]).replace(" ", "") == "%s.user_inputs" % res)
+    oku = len(asg) == 1 and (sgrep.match(sgrep.pattern("%s.stack.iter().cloned().collect()" % res), asg[0]["r"], {}, lenv_n) or sgrep.match(sgrep.pattern("%s.stack.clone().into_iter().collect()" % res), asg[0]["r"], {}, lenv_n))
+    # the copy is taken after the files were queued (a `let` holding the copy must not precede add_files either)
+    copy_at = i_ui
+    if asg and strip(asg[0]["r"])["k"] == "Path":
+        nm_ = strip(asg[0]["r"])["path"]
+        copy_at = idx(lambda n_: n_["k"] == "Local" and n_["pat"].get("name") == nm_)
+    ctx.check(R, "FileStack::new/user-inputs-copy-of-initial-stack", bool(oku) and 0 <= i_files < copy_at <= i_ui, "add_files at statement %d, copy taken at %d, assigned at %d" % (i_files, copy_at, i_ui), site(INC, nw))
+    ctx.check(R, "FileStack::new/libraries-before-files", 0 <= i_lib < i_files, "add_libraries at statement %d, add_files at %d" % (i_lib, i_files), site(INC, nw))
     iu = find_fn(INC, "is_user_input", "FileStack")
     if iu is not None:
         tt = render(iu["body"]).replace(" ", "")
